@@ -574,7 +574,22 @@ func rnsQueryStep(c *Chain, r *rand.Rand, pg *pager, actors []string) (map[strin
 	var q map[string]interface{}
 	var resp interface{}
 	kind := ""
-	switch n := r.Intn(13); {
+	switch n := r.Intn(16); {
+	case n >= 13:
+		kind = "resolve"
+		nm := anyName()
+		if r.Intn(4) == 0 {
+			nm = anyAddr()
+		}
+		extraAddrs = append(extraAddrs, nm)
+		q = map[string]interface{}{"resolve": map[string]interface{}{"name": nm, "lname": strings.ToLower(nm)}}
+		resp = safely(func() (interface{}, error) {
+			a, err := k.Resolve(ctx, nm)
+			if err != nil {
+				return nil, err
+			}
+			return map[string]interface{}{"addr": map[string]interface{}{"a": a.String()}}, nil
+		})
 	case n < 3:
 		kind = "name"
 		nm := anyName()
